@@ -9,7 +9,7 @@ REQ = "From SCK Require Import Voting VoteExt RunVote."
 ORD = V.RULES + ["Copeland"]
 
 class C11(Prop):
-    translators = ['scoring', 'copeland']   # models regenerated from deterministic_scoring.py / utils.py / deterministic_tournament.py on every run
+    translators = ['scoring', 'copeland', 'stv']   # models regenerated from deterministic_scoring.py / utils.py / deterministic_tournament.py on every run
     pid = "C11"
     sources = ["socialchoicekit/deterministic_scoring.py", "socialchoicekit/deterministic_tournament.py", "socialchoicekit/deterministic_multiround.py"]
     groups = {
